@@ -28,7 +28,8 @@ def repo_context_trace(chk):
     import c13_trace
     exe = c13_trace.build_tests(chk)
     path = chk.out + "/ctx.raw.ndjson"
-    targets = ["all_proper_context_tests", "all_static_context_tests", "ecmult_gen_blind", "plug_sha256_compression_tests",
+    # (ecmult_gen_blind is left out on purpose: that test re-blinds the context through the INTERNAL function, behind the API)
+    targets = ["all_proper_context_tests", "all_static_context_tests", "plug_sha256_compression_tests",
                "ec_illegal_argument_tests", "deprecated_context_flags_test", "selftest_tests", "test_ecdh_ctx_sha256", "ecdsa_ctx_sha256"]
     p = vlib.run([exe] + ["--target=" + t for t in targets] + ["--iterations=%d" % (4 if chk.tier == "quick" else 32), "--seed=%032x" % (chk.seed & (2**128 - 1))],
                  900, env={"SECP256K1_ZKP_VERIF_TRACE": path})
